@@ -39,7 +39,7 @@ def run_variant(v) -> tuple[str, bool, str]:
             s = p.read_text()
             pairs = old if isinstance(old, list) else [(old, new)]
             for o, n in pairs:
-                if s.count(o) != count:
+                if (count is None and s.count(o) < 1) or (count is not None and s.count(o) != count):
                     return vid, False, f"pattern {o[:40]!r} occurs {s.count(o)}x in {rel} (expected {count})"
                 s = s.replace(o, n)
             if rel.endswith(".py"):
